@@ -29,7 +29,7 @@ for i in ids:
         except Exception:
             pass
     if prev and os.environ.get("SEED_ROUND2"):
-        out.append("For %s the following changes have ALREADY been made by someone else - yours must use different mechanisms, in different functions, and need different circumstances to manifest (name your directories %s-c and %s-d):\n%s\n" % (i, i, i, "\n".join("  - " + x for x in prev)))
+        out.append("For %s the following changes have ALREADY been made by someone else - yours must use different mechanisms, in different functions, and need different circumstances to manifest (name your directories %s-e and %s-f):\n%s\n" % (i, i, i, "\n".join("  - " + x for x in prev)))
     out.append("PROPERTY %s - %s\nStatement: %s\nQuantified over: %s\nWhy the existing tests cannot settle it: %s\nCode it is anchored in: %s\n" % (
         i, p["title"], p["statement"], p["quantifier"]["text"], p["why_tests_cant"], ", ".join(p["anchors"]["files"])))
 print("\n".join(out))
